@@ -157,11 +157,23 @@ def stepJoin (s : State) (t : Nat) (top : List Nat) (work : List JAct) (tl : Opt
   | .finish u cs :: rest =>
     some ({ s with call := upd s.call t (k rest (if didRaise s raised u cs then (if raised.contains u then raised else u :: raised) else raised)) }, .tau)
 
+/-- the value join_all_threads puts in the result slot of `u` -/
+def resultOf (s : State) (u : Nat) : Option Nat :=
+  match s.outcome u with
+  | some (.ok v) => some v
+  | _ => none
+
+/-- result of a single join(u) -/
+def joinRet1 (s : State) (u : Nat) (raised : List Nat) : Ret :=
+  if raised.contains u then (if s.stopped u then .raised else .timeout)
+  else match s.outcome u with
+    | some (.ok v) => .value v
+    | _ => .raised
+
 def joinRet (s : State) (top : List Nat) (raised : List Nat) (all : Bool) : Ret :=
-  if all then (if top.any raised.contains then .allRaised else .values (top.map fun u => match s.outcome u with | some (.ok v) => some v | _ => none))
+  if all then (if top.any raised.contains then .allRaised else .values (top.map (resultOf s)))
   else match top with
-    | [u] => if raised.contains u then (if s.stopped u then .raised else .timeout)
-             else match s.outcome u with | some (.ok v) => .value v | _ => .raised
+    | [u] => joinRet1 s u raised
     | _ => .none
 
 def step (s : State) (t : Nat) : Option (State × Label) :=
